@@ -212,6 +212,8 @@ type Walker struct {
 	InlineAllRuns bool
 	// FixRuns answers decisions of every new run (invariants of the input space).
 	FixRuns  func(dk, constRepr string) (int, bool)
+	// ConcatLists: append(a, b...) of decidable lists is modelled element-wise.
+	ConcatLists bool
 	// ExternStructs: composite literals of library struct types become structured values too.
 	ExternStructs bool
 	// HookRuns is the CallHook of every new run.
@@ -271,7 +273,7 @@ type Run struct {
 
 func NewWalker(p *Prog) *Walker {
 	w := &Walker{P: p, emitter: map[*types.Func]bool{}, domains: map[string][]string{},
-		InlinedHelpers: map[string]int{}, MaxDepth: 40, RecLimit: 1}
+		InlinedHelpers: map[string]int{}, MaxDepth: 40, RecLimit: 1, ConcatLists: true}
 	w.computeEmitters()
 	return w
 }
@@ -2073,6 +2075,33 @@ func (r *Run) builtin(name string, call *ast.CallExpr, env *Env, rt types.Type) 
 				if l, ok := args[0].(VList); ok && l.Key == "bytes" {
 					return VList{Key: "bytes", Elems: append(append([]Val{}, l.Elems...), args[1:]...)}
 				}
+			}
+		}
+		// append(a, b...) where a is empty or known: the elements of b are decided now
+		if call.Ellipsis.IsValid() && len(args) == 2 && r.W.ConcatLists {
+			var base []Val
+			okBase := false
+			switch a := args[0].(type) {
+			case VNil:
+				okBase = true
+			case VList:
+				if a.Elems != nil {
+					base, okBase = a.Elems, true
+				}
+			case VSym:
+				if strings.HasPrefix(a.Key, "make@") {
+					okBase = true
+				}
+			}
+			_, spreadKnown := args[1].(VList)
+			_, spreadSym := args[1].(VSym)
+			if okBase && (spreadKnown || spreadSym) {
+				var elemT types.Type
+				if st, ok := rt.Underlying().(*types.Slice); ok {
+					elemT = st.Elem()
+				}
+				els := r.listElems(args[1], call.Pos(), elemT)
+				return VList{Key: "concat", Elems: append(append([]Val{}, base...), els...)}
 			}
 		}
 		// append to a known list of known elements stays known
